@@ -14,8 +14,10 @@ checks, na = [], []
 for p in props:
     pid = p["id"]
     d = data.get(pid, {})
-    have = os.path.exists(os.path.join(here, "lean", "Props", pid + ".lean")) and \
-        os.path.exists(os.path.join(here, "harness", "props", pid + ".py"))
+    have = (os.path.exists(os.path.join(here, "lean", "Props", pid + ".lean")) or
+            os.path.isdir(os.path.join(here, "lean", "Props", pid))) and \
+        any(f == pid + ".py" or (f.startswith(pid + "_") and f.endswith(".py"))
+            for f in os.listdir(os.path.join(here, "harness", "props")))
     if have and d.get("claim", True):
         checks.append({
             "property_id": pid,
